@@ -34,6 +34,7 @@ func propC01(c *Ctx) {
 	c.ruleErrBranchValue("C01-ERR-BRANCH-VALUE", reach)
 	c.ruleConstIndex("C01-CONST-INDEX", reach)
 	c.ruleLineBounds("C01-LINE-BOUNDS")
+	c.ruleDepRawPanic("C01-DEP-RAW-PANIC", reach)
 	c.ruleC10Cycle()
 	c.ruleRecursion(reach)
 	c.ruleLoops(reach)
@@ -1675,6 +1676,156 @@ func (c *Ctx) victimKinds(t *types.Named) (tag *types.Func, kinds []*types.Const
 		names = append(names, k.Name())
 	}
 	return tag, kinds, fmt.Sprintf("%d construction site(s) in the module: %s", sites, strings.Join(names, ", "))
+}
+
+// depRawPanicExceptions: calls of panicking dependency functions that are not under a recover although reading shows
+// the panic cannot happen there. One line of reason each.
+var depRawPanicExceptions = map[string]string{
+	"catalog.(ObjectBuilder).AddProperty | b.rootNode.AddChild": "AddChild panics on a key the object already has; the keys are the parameter names of ONE path, and a path that names a parameter twice is rejected by PathParameters (duplicatedPathParameters) when the paths are collected, before any path-variable schema is built",
+}
+
+// ruleDepRawPanic: jsight-schema-core reports the faults of a schema by panicking and recovers at its public entry
+// points. Where the module calls below those entry points (it builds the path-variable schema itself), the recover is
+// the module's job: a schema that is wrong in a way only the compile step notices would otherwise kill the build.
+func (c *Ctx) ruleDepRawPanic(rule string, buildReach map[*ssa.Function]bool) {
+	r := c.R
+	buildDecls := reachDecls(buildReach)
+	r.Rule(rule, "every call of a function of jsight-schema-core from which an explicit panic is reachable without passing a recovering function (reference/dep_panics.json, computed on the dependency's call graph for the version go.mod requires; recomputed in the thorough tier) lies in a function or closure with a deferred recover, or in a function all of whose call sites do (four levels)", 3)
+	reach, why := c.depPanics()
+	if reach == nil {
+		r.Undecided(rule, "reference", why, "")
+		return
+	}
+	if c.Deep {
+		now := c.computeDepPanics()
+		var diff []string
+		for _, k := range sortedStrKeys(now) {
+			if _, ok := reach[k]; !ok {
+				diff = append(diff, "+"+k)
+			}
+		}
+		for _, k := range sortedStrKeys(reach) {
+			if _, ok := now[k]; !ok {
+				diff = append(diff, "-"+k)
+			}
+		}
+		if len(diff) > 0 {
+			r.Undecided(rule, "reference (recomputed)", "reference/dep_panics.json differs from the call graph of the dependency: "+strings.Join(diff, " "), "")
+		} else {
+			r.Ok(rule, "reference (recomputed)", "equal to what the deep load gives today", "")
+		}
+	}
+	recovers := func(body *ast.BlockStmt) bool {
+		for _, s := range body.List {
+			d, ok := s.(*ast.DeferStmt)
+			if !ok {
+				continue
+			}
+			found := false
+			ast.Inspect(d.Call, func(n ast.Node) bool {
+				if id, ok := n.(*ast.Ident); ok && id.Name == "recover" {
+					found = true
+				}
+				return true
+			})
+			if found {
+				return true
+			}
+		}
+		return false
+	}
+	var covered func(f *Fn, depth int, seen map[*types.Func]bool) bool
+	covered = func(f *Fn, depth int, seen map[*types.Func]bool) bool {
+		if f == nil || f.Decl.Body == nil {
+			return false
+		}
+		if recovers(f.Decl.Body) {
+			return true
+		}
+		if depth >= 4 || seen[f.Obj] {
+			return false
+		}
+		seen[f.Obj] = true
+		sites, closed := c.callersOf(f)
+		if !closed || len(sites) == 0 {
+			return false
+		}
+		for _, cs := range sites {
+			if !siteCovered(cs.g, cs.call, recovers) && !covered(cs.g, depth+1, seen) {
+				return false
+			}
+		}
+		return true
+	}
+	n := 0
+	for _, f := range c.libFns() {
+		if !buildDecls[f.Obj] {
+			continue // the export has its own recover boundary (C17-PANIC-COVER)
+		}
+		pk := f.Pkg
+		inspectWithStack(f.Decl.Body, func(nd ast.Node, stack []ast.Node) bool {
+			call, ok := nd.(*ast.CallExpr)
+			if !ok {
+				return true
+			}
+			cal := callee(pk, call)
+			if cal == nil {
+				return true
+			}
+			class, ok := reach[cal.FullName()]
+			if !ok {
+				return true
+			}
+			n++
+			key := fmt.Sprintf("%s | %s", f.Name(), exprString(call.Fun))
+			where := c.pos(call.Pos())
+			// nearest enclosing closure or the function itself
+			inner := f.Decl.Body
+			for i := len(stack) - 1; i >= 0; i-- {
+				if fl, ok := stack[i].(*ast.FuncLit); ok {
+					inner = fl.Body
+					break
+				}
+			}
+			switch {
+			case recovers(inner) || recovers(f.Decl.Body):
+				r.Ok(rule, key, "under a deferred recover of the enclosing function or closure", where)
+			case covered(f, 0, map[*types.Func]bool{}):
+				r.Ok(rule, key, "every call site of the enclosing function is under a deferred recover", where)
+			default:
+				if why, ok := depRawPanicExceptions[key]; ok {
+					r.Ok(rule, key, "named exception: "+why, where)
+					r.Except(key, why)
+				} else {
+					r.Bad(rule, key, "the dependency function "+class+" and is called outside any recover: a document that makes it panic kills the build instead of being rejected", where)
+				}
+			}
+			return true
+		})
+	}
+	if n == 0 {
+		r.Undecided(rule, "sites", "no call of a listed dependency function found", "")
+	}
+}
+
+// siteCovered: the call site lies in a closure of g that has a deferred recover, or g has one itself.
+func siteCovered(g *Fn, call *ast.CallExpr, recovers func(*ast.BlockStmt) bool) bool {
+	if recovers(g.Decl.Body) {
+		return true
+	}
+	ok := false
+	inspectWithStack(g.Decl.Body, func(n ast.Node, stack []ast.Node) bool {
+		if n != ast.Node(call) {
+			return true
+		}
+		for i := len(stack) - 1; i >= 0; i-- {
+			if fl, isLit := stack[i].(*ast.FuncLit); isLit && recovers(fl.Body) {
+				ok = true
+			}
+		}
+		return false
+	})
+	return ok
 }
 
 // ruleLineBounds: bytes.Bytes.BeginningOfLine(i) and EndOfLine(i) of jsight-schema-core index their data without a
